@@ -76,44 +76,92 @@ def _under_scratch(p):
 
 
 class _WriteProxy:
-    """file opened for writing below the scratch home: every write is split in two halves with a
-    step boundary in between (first half flushed: the torn state is visible to others / survives a kill)"""
+    """binary file opened for writing below the scratch home.  It emulates the user-space buffer of
+    a buffered file faithfully: data reach the file only when the buffer limit is exceeded, on
+    flush() and on close() (CPython closes a dropped file object at once); nothing is flushed
+    when the loader has been killed, exactly as after a process kill.  When data are written out
+    they go in two halves with a step boundary in between, so that a torn file is observable by
+    other loaders and survives a kill.  The limit is a parameter of the world (8192 = small files
+    are written in one piece at close; 16 = the regime of files larger than the buffer)."""
 
-    def __init__(self, f, path):
-        self._f = f
+    def __init__(self, raw, path, limit):
+        self._raw = raw
         self._path = path
+        self._limit = limit
+        self._buf = b""
+        self._closed = False
 
-    def write(self, data):
+    def _drain(self):
+        data, self._buf = self._buf, b""
+        if not data:
+            return
         lc = _ctx()
         if lc is None or len(data) < 2:
-            return self._f.write(data)
+            self._raw.write(data)
+            return
         h = len(data) // 2
-        self._f.write(data[:h])
-        self._f.flush()
+        self._raw.write(data[:h])
         lc.boundary(("write-mid", lc.rel(self._path)))
-        self._f.write(data[h:])
-        self._f.flush()
+        self._raw.write(data[h:])
+
+    def write(self, data):
+        data = bytes(data)
+        self._buf += data
+        if len(self._buf) >= self._limit:
+            self._drain()
         return len(data)
 
+    def flush(self):
+        lc = _ctx()
+        if lc is not None and lc.killed:
+            return
+        self._drain()
+
     def close(self):
-        return self._f.close()
+        if self._closed:
+            return
+        self._closed = True
+        lc = _ctx()
+        try:
+            if not (lc is not None and lc.killed):
+                self._drain()
+        finally:
+            self._raw.close()
+
+    def __del__(self):
+        try:
+            self.close()
+        except BaseException:
+            pass
 
     def __enter__(self):
         return self
 
     def __exit__(self, *a):
-        self._f.close()
+        self.close()
 
-    def __getattr__(self, name):
-        return getattr(self._f, name)
+    def fileno(self):
+        return self._raw.fileno()
+
+    def writable(self):
+        return True
+
+    @property
+    def closed(self):
+        return self._closed
+
+    @property
+    def name(self):
+        return self._path
 
 
 def _open(file, mode="r", *a, **k):
-    f = _real_open(file, mode, *a, **k)
     lc = _ctx()
-    if lc is not None and isinstance(file, (str, bytes, os.PathLike)) and any(c in mode for c in "wax+") and _under_scratch(file):
-        return _WriteProxy(f, os.fspath(file))
-    return f
+    if (lc is not None and isinstance(file, (str, bytes, os.PathLike)) and mode in ("wb", "bw", "xb", "ab") and not a
+            and _under_scratch(file)):
+        raw = _real_open(file, mode, buffering=0)
+        return _WriteProxy(raw, os.fspath(file), lc.world.write_buffer)
+    return _real_open(file, mode, *a, **k)
 
 
 def _stat(p, *a, **k):
@@ -318,9 +366,10 @@ class Loader:
 class World:
     """N loaders over one scratch data home."""
 
-    def __init__(self, calls, home, answer_fn=None, payloads=None):
+    def __init__(self, calls, home, answer_fn=None, payloads=None, write_buffer=8192):
         install()
         self.home = home
+        self.write_buffer = write_buffer
         if not any(home.startswith(r) for r in SCRATCH_ROOTS):
             SCRATCH_ROOTS.append(home)
         self.back = threading.Semaphore(0)
